@@ -5,7 +5,7 @@ from typing import Any, Dict, List
 
 from hypothesis import strategies as st
 
-from gen.http import (apply_segmentation, deliver, h1_request, h2_request, make_body,
+from gen.http import (apply_segmentation, chunk_plan, deliver, h1_request, h2_request, make_body,
                       segmentation)
 from sim.common import expected_addrs
 from sim.run import BACKENDS, run_sim
@@ -64,6 +64,25 @@ def case_strategy(draw: Any, proto: str) -> Dict[str, Any]:
     else:
         reqs = [draw(h2_request()) for _ in range(nreq)]
         opening = draw(st.sampled_from(["h2-alpn", "h2-prior"]))
+    late_upload = False
+    if proto == "h2" and draw(st.integers(0, 5)) == 0:
+        # earlier requests are answered in full without being read; the client still uploads
+        # their (large) bodies afterwards, which is legal, and then sends a request with a body
+        # under honest flow control: the credit spent on the ignored uploads must come back
+        late_upload = True
+        n_early = draw(st.integers(1, 2))
+        early = [draw(h2_request()) for _ in range(n_early)]
+        for r in early:
+            r["body_len"] = draw(st.sampled_from([40000, 70000, 140000]))
+            r["frames"] = draw(chunk_plan(r["body_len"], max_chunks=12))
+            r["end_with_headers"] = False
+        last = draw(h2_request())
+        if last["body_len"] == 0:
+            last["body_len"] = draw(st.sampled_from([1, 20000, 70000]))
+            last["frames"] = []
+            last["end_with_headers"] = False
+        reqs = early + [last]
+        nreq = len(reqs)
     truncate = None
     if draw(st.integers(0, 7)) == 0 and reqs[-1]["body_len"] > 1:
         truncate = draw(st.integers(1, reqs[-1]["body_len"] - 1))
@@ -83,6 +102,7 @@ def case_strategy(draw: Any, proto: str) -> Dict[str, Any]:
                                               "one_then_start"]))},
         "sock": draw(st.sampled_from(["inet", "inet", "inet6", "unix"])),
         "truncate": truncate,
+        "late_upload": late_upload,
     }
 
 
@@ -208,7 +228,17 @@ async def scenario_h2(env: Any, case: Dict[str, Any]) -> Any:
         body = body_of(req)
         trunc = case.get("truncate") if last else None
         hs = h2_headers(req, "https" if alpn else "http")
-        if len(body) == 0 and req["end_with_headers"]:
+        if case.get("late_upload") and not last:
+            sid = client.request(hs, end_stream=False)
+            for _ in range(40):  # the whole response first ...
+                await flush()
+                client.pump()
+                await flush()
+                if client.streams.get(sid, {}).get("ended"):
+                    break
+                await env.settle(50.0)
+            client.upload(sid, body, req["frames"], end_stream=True)  # ... then the upload
+        elif len(body) == 0 and req["end_with_headers"]:
             client.request(hs, end_stream=True)
         else:
             sid = client.request(hs, end_stream=False)
@@ -249,6 +279,7 @@ def judge(case: Dict[str, Any], obs: Any) -> None:
         raise Violation(
             "instance_count", f"{len(insts)} instances for {len(reqs)} requests", backend=be)
     for i, (req, inst) in enumerate(zip(reqs, insts)):
+        unread = bool(case.get("late_upload")) and i < len(reqs) - 1
         exp = expected_scope(case, req)
         sc = inst.scope_copy
         for key, want in exp.items():
@@ -266,7 +297,10 @@ def judge(case: Dict[str, Any], obs: Any) -> None:
         http_msgs = [m for m in msgs if m["type"] == "http.request"]
         got_body = b"".join(m.get("body", b"") for m in http_msgs)
         finals = [j for j, m in enumerate(http_msgs) if not m.get("more_body", False)]
-        if truncated:
+        if unread:
+            if http_msgs:
+                raise Violation("harness", f"request {i} was meant to stay unread")
+        elif truncated:
             sent = body[:case["truncate"]]
             if finals:
                 raise Violation("false_body_end", f"request {i}: more_body=False although the "
@@ -300,6 +334,11 @@ def run_case(case: Dict[str, Any]) -> CaseInfo:
     cfg = dict(case["cfg"])
     cfg["keep_alive_timeout"] = T_BIG
     programs = {"*": app_program(case["app"])}
+    if case.get("late_upload"):
+        answer = [["send", {"type": "http.response.start", "status": 200, "headers": []}],
+                  ["send", {"type": "http.response.body", "body": "unread"}], ["recv_disc"]]
+        for i in range(len(case["requests"]) - 1):
+            programs["#%d" % i] = answer
     h1 = case["opening"].startswith("h1")
 
     async def scenario(env: Any) -> Any:
@@ -320,6 +359,8 @@ def run_case(case: Dict[str, Any]) -> CaseInfo:
         classes.append("chunks>queue")
     if case.get("truncate") is not None:
         classes.append("truncated")
+    if case.get("late_upload"):
+        classes.append("late_upload")
     if case["cfg"]["h11_pass_raw_headers"]:
         classes.append("raw_headers")
     nontrivial = (any(r["body_len"] > 0 for r in reqs) or case["seg"]["mode"] != "one"
